@@ -449,6 +449,13 @@ class CircuitOperation(ops.Operation):
     def _decompose_(self) -> Iterator[cirq.Operation]:
         return self.mapped_circuit(deep=False).all_operations()
 
+    def _has_stabilizer_effect_(self) -> bool:
+        # Simulators act on the operations of the sub-circuit one by one (see _act_on_), so each of
+        # them has to have stabilizer effect; that their product happens to have it is not enough.
+        return all(
+            protocols.has_stabilizer_effect(op) for op in self._mapped_any_loop.all_operations()
+        )
+
     def _act_on_(self, sim_state: cirq.SimulationStateBase) -> bool:
         mapped_repeat_until = self._mapped_repeat_until
         if mapped_repeat_until:
